@@ -3,6 +3,7 @@
 package jtp
 
 import (
+	"os"
 	"fmt"
 	"net/url"
 	"servitor/verifkit"
@@ -98,6 +99,8 @@ func verifStageOf(raw []byte, at int) string {
 	return "complete"
 }
 
+var verifLost int
+
 func verifRunFault(out *verifkit.Trace, sim *verifsim.Sim, c verifFaultCase, url_ string, raw []byte, wholeFrom int) {
 	link, _ := url.Parse(url_)
 	type result struct {
@@ -171,6 +174,16 @@ func verifRunFault(out *verifkit.Trace, sim *verifsim.Sim, c verifFaultCase, url
 	}
 	out.Emit(verifkit.M{"ev": "fault", "id": c.id, "hops": c.hops, "hop": c.hop, "kind": c.kind, "at": c.at, "stage": stage,
 		"big": c.big, "outcome": outcome, "whole": whole, "ticks": int(elapsed / verifT), "ms": elapsed.Milliseconds(), "err": errText, "again": again})
+	if outcome == "timeout" {
+		/* a fetch that has not come back is still at work somewhere (it may be asking again and again): after the second one
+		   the run is given up, what was seen so far stands */
+		verifLost++
+		if verifLost >= 2 {
+			out.Emit(verifkit.M{"ev": "aborted", "why": "two fetches did not return"})
+			out.Close()
+			os.Exit(3)
+		}
+	}
 }
 
 func TestVerifFaults(t *testing.T) {
